@@ -178,7 +178,50 @@ CANARY = 0x7F   # as double 1.4e306, as int64 9.2e18: an out-of-extent read that
 
 
 ASAN = os.environ.get("VERIF_ASAN") == "1"
+PAGES = os.environ.get("VERIF_PAGES") == "1"      # page-protection observer: see Buf
 _libc = None
+_pg = None
+PAGE = 4096
+PROT_NONE, PROT_READ, PROT_WRITE = 0, 1, 2
+
+
+def _page_fns():
+    global _pg
+    if _pg is None:
+        c = ctypes.CDLL(None, use_errno=True)
+        c.mmap.restype = ctypes.c_void_p
+        c.mmap.argtypes = [ctypes.c_void_p, ctypes.c_size_t, ctypes.c_int, ctypes.c_int, ctypes.c_int, ctypes.c_long]
+        c.mprotect.argtypes = [ctypes.c_void_p, ctypes.c_size_t, ctypes.c_int]
+        c.munmap.argtypes = [ctypes.c_void_p, ctypes.c_size_t]
+        _pg = c
+    return _pg
+
+
+class ro:
+    """with ro(a, b): ...   the given buffers are read-only for the duration (page-protection observer; otherwise nothing happens)"""
+
+    def __init__(self, *bufs):
+        self.bufs = [b for b in bufs if b is not None and getattr(b, "mapped", None)]
+
+    def __enter__(self):
+        for b in self.bufs:
+            b.readonly(True)
+
+    def __exit__(self, *exc):
+        for b in self.bufs:
+            b.readonly(False)
+        return False
+
+
+class _Mapping:
+    def __init__(self, base, total):
+        self.base, self.total = base, total
+
+    def __del__(self):
+        try:
+            _page_fns().munmap(self.base, self.total)
+        except Exception:
+            pass
 
 
 class Buf:
@@ -189,6 +232,28 @@ class Buf:
 
     def __init__(self, nbytes, off=0, fill=0xCD):
         self.nbytes = int(nbytes)
+        self.mapped = None
+        if PAGES and not ASAN:
+            # page-protection observer (VERIF_PAGES=1): the payload ends exactly at an inaccessible page (an access past the declared extent
+            # faults, reads included) and starts after one; readonly(True) takes the write permission away from the pages of the payload, so
+            # that a source operand which is written - even if it is restored before the call returns - faults as well
+            c = _page_fns()
+            npay = (max(self.nbytes, 1) + PAGE - 1) // PAGE
+            total = (npay + 2) * PAGE
+            base = c.mmap(None, total, PROT_READ | PROT_WRITE, 0x22, -1, 0)        # MAP_PRIVATE | MAP_ANONYMOUS
+            if base in (None, ctypes.c_void_p(-1).value):
+                raise Infra("mmap failed")
+            c.mprotect(base, PAGE, PROT_NONE)
+            c.mprotect(base + (npay + 1) * PAGE, PAGE, PROT_NONE)
+            self.mapped = (base, total, base + PAGE, npay * PAGE)
+            self.addr = base + (npay + 1) * PAGE - self.nbytes
+            self.pos = self.addr - (base + PAGE)
+            carr = (ctypes.c_uint8 * (npay * PAGE)).from_address(base + PAGE)
+            carr._owner = _Mapping(base, total)          # unmapped when the last numpy view of the payload is gone
+            self.raw = np.frombuffer(carr, dtype=np.uint8)
+            self.raw[:] = CANARY
+            self.raw[self.pos:self.pos + self.nbytes] = fill
+            return
         if ASAN:
             global _libc
             if _libc is None:
@@ -235,6 +300,12 @@ class Buf:
 
     def snapshot(self):
         return self.u8.copy()
+
+    def readonly(self, on):
+        """page-protection observer only: make the pages of the payload read-only (on) or writable again"""
+        if self.mapped:
+            _page_fns().mprotect(self.mapped[2], self.mapped[3], PROT_READ if on else (PROT_READ | PROT_WRITE))
+
 
     def at(self, byte_offset):
         return self.addr + int(byte_offset)
